@@ -255,9 +255,10 @@ def register_get(kind, version, nbytes, fix_names=None):
         gg = [g.value for g in back.get("Object Group", [])]
         if gg != ([group] if has_group else []):
             return False
-        pol = back.get("Operation Policy Name")
-        if not pol or pol[0].value != "default":
-            return False
+        if version < (2, 0):             # Operation Policy Name is deprecated in KMIP 2.0: not reported there (C16)
+            pol = back.get("Operation Policy Name")
+            if not pol or pol[0].value != "default":
+                return False
         ot = back.get("Object Type")
         return bool(ot) and ot[0].value == otype
     return h
